@@ -9,14 +9,11 @@ namespace Api
 def rootsOf (es : Errs) : Errs := es.filter (fun p => p.1.isEmpty)
 def deepOf (es : Errs) : Errs := es.filter (fun p => !p.1.isEmpty)
 
-/-- violations of a datum against `Optional[T]`: none for `null` or a datum without violation against `T`; otherwise the violations located at the
-value itself, `expected type null`, then the ones located below -/
-def violationsOpt (cs : Constraints) (t : Ty) (d : Py) : Errs :=
-  if d.isNull || (violations cs t d).isEmpty then []
+/-- violations of a datum against `Optional[T]`: none for `null` or a datum that conforms to `T`; otherwise the violations located at the value
+itself, `expected type null`, then the ones located below -/
+def violationsOpt (ap : Bool) (cs : Constraints) (t : Ty) (d : Py) : Errs :=
+  if d.isNull || conforms ap false cs t d then []
   else rootsOf (violations cs t d) ++ badT .null d ++ deepOf (violations cs t d)
-
-/-- a rejection carries at least one message (every `ValidationError` the methods raise does) -/
-def Reports (m : Meth) : Prop := ∀ d e, run m d = .invalid e → e.flatten ≠ []
 
 theorem pre_nonempty (k : Key) (es : Errs) : ∀ p ∈ pre k es, p.1.isEmpty = false := by
   intro p hp; unfold pre at hp; obtain ⟨q, _, rfl⟩ := List.mem_map.1 hp; rfl
@@ -62,59 +59,48 @@ theorem flatten_merge_msgs (e : Err) (rs : List Rule) :
     simp only [Err.ofMsgs, Err.msgs, Err.children, addMissing, List.foldl_nil, mergeKids_nil]
     rw [Err.flatten, Err.flatten, filter_roots, filter_deep, List.map_append]
 
-/-- **C02 for `Optional[T]`.** If the errors of `m` are the violations of `T`, the errors of `OptionalMethod(m)` on a JSON datum are: nothing
-for `null` or a conforming value, and otherwise the value's own messages, `expected type null, found …`, then the value's located errors — a
-violation inside the value never hides behind the null alternative. -/
-theorem errors_optional {m : Meth} {cs : Constraints} {t : Ty} (hm : ErrsOk m cs t) (hrep : Reports m) (d : Py) (hd : d.json = true) :
-    (run (.optional m) d).errs = violationsOpt cs t d := by
+/-- **C02 for `Optional[T]`.** If `m` accepts exactly the conforming data of `T` and its errors are the violations of `T`, the errors of
+`OptionalMethod(m)` on a JSON datum are: nothing for `null` or a conforming value, and otherwise the value's own messages, `expected type null,
+found …`, then the value's located errors — a violation inside the value never hides behind the null alternative. -/
+theorem errors_optional {m : Meth} {ap : Bool} {cs : Constraints} {t : Ty} (hm : ErrsOk m cs t)
+    (hacc : ∀ d, d.wf = true → (run m d).isOk = conforms ap false cs t d) (d : Py) (hd : d.json = true) (hwf : d.wf = true) :
+    (run (.optional m) d).errs = violationsOpt ap cs t d := by
   rw [run]
   unfold violationsOpt
   cases hn : d.isNull with
   | true => simp [Outcome.errs]
   | false =>
     have hv := hm.2 d hd
+    have ha := hacc d hwf
     simp only [Bool.false_eq_true, if_false, Bool.false_or]
-    rw [← hv]
+    rw [← hv, ← ha]
     cases hr : run m d with
-    | ok v => simp [optionalTail, Outcome.errs]
+    | ok v => simp [optionalTail, Outcome.errs, Outcome.isOk]
     | crash c =>
       have := hm.1 d (jsonX_of_json.1 d hd)
       rw [hr] at this; simp [Outcome.isCrash] at this
     | invalid e =>
       have hb : badType [.null] d = .invalid (.ofMsgs [.badType .null d.jclass?]) := rfl
-      have hne : e.flatten.isEmpty = false := by
-        cases h : e.flatten with
-        | nil => exact absurd h (hrep d e hr)
-        | cons a l => rfl
-      simp only [optionalTail, hb, Outcome.errs, hne, Bool.false_eq_true, if_false]
+      simp only [optionalTail, hb, Outcome.errs, Outcome.isOk, Bool.false_eq_true, if_false]
       rw [flatten_merge_msgs]
       have hj : ∃ c, d.jclass? = some c := by cases d <;> first | exact ⟨_, rfl⟩ | cases hd
       obtain ⟨c, hc⟩ := hj
       have hbt : badT .null d = [(([] : Path), Rule.badType .null (some c))] := by unfold badT; rw [hc]
       rw [hbt, hc]; rfl
 
-end Api
-
-namespace Api
-
 /-- **C02, `Optional` of the index-keyed fragment**: for every type of the fragment of `errors_eq_violations` (primitives, lists, tuples, NewTypes,
-annotations, any depth), the errors `OptionalMethod` reports over its compiled method are the specification's. -/
+annotations, any depth), every option record and every JSON datum with distinct keys, the errors `OptionalMethod` reports over the compiled
+method are the specification's (acceptance by `accepts_iff_conforms`, errors by `errors_eq_violations`). -/
 theorem C02_errors_optional (o : DOpts) (ho : OptsOk o) (cs : Constraints) (t : Ty) (ha : t.acc = true) (hn : t.nouq = true) (he : t.efrag = true)
-    (hu : cs.unique = false) (hrep : Reports (compile o cs t)) (d : Py) (hd : d.json = true) :
-    (run (.optional (compile o cs t)) d).errs = violationsOpt cs t d :=
-  errors_optional ((errors_eq_violations o ho).1 cs t ha hn he hu) hrep d hd
+    (hu : cs.unique = false) (d : Py) (hd : d.json = true) (hwf : d.wf = true) :
+    (run (.optional (compile o cs t)) d).errs = violationsOpt o.additionalProperties cs t d :=
+  errors_optional ((errors_eq_violations o ho).1 cs t ha hn he hu) ((accepts_iff_conforms o ho).1 cs t ha) d hd hwf
 
-/-- the integer method reports what it rejects -/
-theorem reports_int : Reports .int := by
-  intro d e h
-  cases d <;> simp [run, runInt, badType, constrained] at h <;> (try (subst h; simp [Err.ofMsgs, Err.flatten]))
-  -- an integer: no constraint, no rule can fail
-  simp [Constraints.numErrors, optRule] at h
-
-/-- non-vacuity: `Optional[int]` on a string and on a list -/
+/-- non-vacuity: `Optional[int]` on a string, `Optional[List[int]]` on a list with an ill-typed element -/
 example : (run (.optional .int) (.str "a")).errs = [([], .badType .int (some .str)), ([], .badType .null (some .str))] := by decide +kernel
-example : violationsOpt {} .int (.str "a") = [([], .badType .int (some .str)), ([], .badType .null (some .str))] := by decide +kernel
-example : (run (.optional (.list {} .int)) (.list [.int 1, .str "a"])).errs
+example : violationsOpt false {} .int (.str "a") = [([], .badType .int (some .str)), ([], .badType .null (some .str))] := by decide +kernel
+example : violationsOpt false {} (.list .int) (.list [.int 1, .str "a"])
     = [([], .badType .null (some .list)), ([.idx 1], .badType .int (some .str))] := by decide +kernel
+example : violationsOpt false {} (.list .int) (.list [.int 1]) = [] := by decide +kernel
 
 end Api
